@@ -345,7 +345,11 @@ func firstMatch(s, re string) string {
 	return regexp.MustCompile(re).FindString(s)
 }
 
-func runReplayTest(r *propRun, relPkg, src string) (string, bool) {
+func runReplayTest(r *propRun, relPkg, src string, runPat ...string) (string, bool) {
+	pat, timeout := "^TestVerifReplay$", "120s"
+	if len(runPat) > 0 && runPat[0] != "" {
+		pat, timeout = runPat[0], "3000s"
+	}
 	dir := filepath.Join(r.verif, ".work", fmt.Sprintf("replay.%d", os.Getpid()))
 	_ = os.MkdirAll(dir, 0o755)
 	defer os.RemoveAll(dir)
@@ -355,8 +359,9 @@ func runReplayTest(r *propRun, relPkg, src string) (string, bool) {
 	data, _ := json.Marshal(ov)
 	of := filepath.Join(dir, "ov.json")
 	_ = os.WriteFile(of, data, 0o644)
-	cmd := exec.Command("go", "test", "-overlay", of, "-vet=off", "-count=1", "-timeout", "120s", "-run", "^TestVerifReplay$", "./"+relPkg)
+	cmd := exec.Command("go", "test", "-overlay", of, "-vet=off", "-count=1", "-timeout", timeout, "-run", pat, "./"+relPkg)
 	cmd.Dir = r.repo
+	cmd.Env = append(os.Environ(), "VERIF_BOUND_TIER="+r.tier)
 	out, err := cmd.CombinedOutput()
 	return string(out), err != nil
 }
@@ -394,7 +399,9 @@ func runReplayCmd(args []string) int {
 			r.verif = args[i+1]
 		}
 	}
-	out, failed := runReplayTest(r, pkg, src)
+	runPat, _ := rec["replay_run"].(string)
+	r.tier, _ = rec["tier"].(string)
+	out, failed := runReplayTest(r, pkg, src, runPat)
 	fmt.Println(out)
 	if failed {
 		fmt.Println("REPLAY: the failure reproduces on the current tree")
